@@ -32,7 +32,7 @@ class C13(Prop):
             "boxcars of bank widths at every start bin class. Non-trivial = >= 2 templates; distinct by full case.")
     assumptions = ["the standardised data are the implementation's own z-scores (their properties are C15)",
                    "a template placed near the end wraps around (ring of the data length)"]
-    regimes_expected = ["good-length", "bad-length", "odd-goodsize", "boxcar-edge", "boxcar-inside", "affine"]
+    regimes_expected = ["good-length", "bad-length", "odd-goodsize", "boxcar-edge", "boxcar-inside", "affine", "ring-filled"]
     budget_s = (200, 1200)
 
     def _case(self, rng, n=None):
@@ -57,11 +57,32 @@ class C13(Prop):
             c["b"] = rng.choice((-16.0, 3.0, 100.0))
         return c
 
+    @staticmethod
+    def widest_len(kind, nbmax):
+        """length of the widest template of a bank (boxcar: its width; gaussian / lorentzian: 2*ceil(3.5*sigma)+1)"""
+        if kind == "boxcar":
+            return nbmax
+        sig = nbmax / (2 * math.sqrt(2 * math.log(2))) if kind == "gaussian" else nbmax / 2
+        return 2 * int(math.ceil(3.5 * sig)) + 1
+
+    def _ring_case(self, rng, kind, nbmax, extra):
+        """the series is exactly as long as (or `extra` longer than) the widest template: the smallest legal input"""
+        n = self.widest_len(kind, nbmax) + extra
+        c = self._case(rng, max(n, 8))
+        w = rng.randint(1, 3)
+        c.update(n=max(n, 8), kind=kind, nbmax=nbmax, dkind=rng.choice(("noise", "pulse")), width=w,
+                 start=rng.randint(0, max(0, max(n, 8) - w - 1)), a=1.0, b=0.0)
+        return c
+
     def gen(self, rng, tier):
         k = 1 if tier == "quick" else 6
         cases = [self._case(rng) for _ in range(150 * k)]
         for n in (45, 75, 81, 46, 64):
             cases.append(self._case(rng, n))
+        for kind in ("gaussian", "lorentzian", "boxcar"):
+            for nbmax in (4, 8, 12, 32):
+                for extra in (0, 1):
+                    cases.append(self._ring_case(rng, kind, nbmax, extra))
         return cases
 
     def corpus(self):
@@ -174,6 +195,8 @@ class C13(Prop):
         return None
 
     def regime(self, case, obs):
+        if obs.get("temps") and max(len(t["data"]) for t in obs["temps"]) == case["n"]:
+            return "ring-filled"          # the widest template is exactly as long as the series
         if case["a"] != 1.0 or case["b"] != 0.0:
             return "affine"
         if case["dkind"] == "boxcar":
